@@ -22,7 +22,7 @@ def run(tier, replay):
     work = V.scratch()
     bins = V.build(["dbt"], work)
     nontrivial = set()
-    modes = [("alias", c.seed, [])]
+    modes = [("alias", c.seed, [6, 25])] if tier == "quick" else [("alias", c.seed * 100 + i, [40, 40]) for i in range(6)]
     dbtrace.CLASSES["C17"] = ("alias:", "alias")
     dbtrace.run_modes(c, "C17", bins, work, modes, nontrivial)
     c.cov["rule"] = ("18 call kinds x (arguments, results) overwritten in place at every nested container position; each overwrite is one Mutate event judged on the complete "
